@@ -429,13 +429,21 @@ class SecopClient(ProxyClient):
             if entry is None:
                 break
             request = entry[0]
-            reply_action = REQUEST2REPLY.get(request[0], None)
-            if reply_action:
-                # action and identifier ('.' is the same as no identifier, see __rxthread)
-                key = (reply_action, None if request[1] == '.' else request[1])
-            else:  # allow experimental unknown requests, but only one at a time
-                key = None
-            if key in self.active_requests:
+            try:
+                reply_action = REQUEST2REPLY.get(request[0], None)
+                if reply_action:
+                    # action and identifier ('.' is the same as no identifier, see __rxthread)
+                    key = (reply_action, None if request[1] == '.' else request[1])
+                else:  # allow experimental unknown requests, but only one at a time
+                    key = None
+                parked = key in self.active_requests
+            except TypeError as e:
+                # an action or specifier which is not even hashable: an error for this caller only
+                entry[2] = (ERRORPREFIX + str(request[0]), None,
+                            ['BadValue', f'bad request ({e!r})', {}])
+                entry[1].set()
+                continue
+            if parked:
                 # store to requeue after the next reply was received
                 self.pending.put(entry)
             else:
